@@ -492,7 +492,7 @@ Section Nt.
       { apply vstep_rep_nt; auto. right. exact E. }
       destruct R as [offs R]. cbn [vstep sstep s_elems s_cap].
       pose proof (erase_rep_fixed_nt L Hwf Hnv Ht v _ offs R (Z.to_nat i) ltac:(lia)) as H.
-      rewrite Z2Nat.id in H by lia. cbv zeta in H. destruct H as (H1 & H2 & H3).
+      rewrite Z2Nat.id in H by lia. cbv zeta in H. destruct H as (H1 & H2 & H3 & _).
       split; [exact H1|]. split; [congruence|exact H3].
     - cbn [svalid] in Hv. destruct Hv as [Hi Hj].
       destruct (Z.eq_dec j (Z.of_nat (length (s_elems s)))) as [E|E].
@@ -500,7 +500,7 @@ Section Nt.
       destruct R as [offs R]. cbn [vstep sstep s_elems s_cap].
       pose proof (erase_range_rep_fixed_nt L Hwf Hnv Ht v _ offs R (Z.to_nat i) (Z.to_nat j)
                     ltac:(lia) ltac:(left; lia) ltac:(lia)) as H.
-      rewrite !Z2Nat.id in H by lia. cbv zeta in H. destruct H as (H1 & H2 & H3).
+      rewrite !Z2Nat.id in H by lia. cbv zeta in H. destruct H as (H1 & H2 & H3 & _).
       split; [exact H1|]. split; [congruence|exact H3].
   Qed.
 
